@@ -83,14 +83,14 @@ type FD struct {
 // File is a parsed CFF font program.
 type File struct {
 	Major, Minor, HdrSize, OffSize byte
-	Names       [][]byte
-	Top         Dict
-	Strings     [][]byte
-	GSubrs      [][]byte
-	CharStrings [][]byte
-	IsCID       bool
-	FDs         []FD
-	FDSelect    []int // FD index per glyph
+	Names                          [][]byte
+	Top                            Dict
+	Strings                        [][]byte
+	GSubrs                         [][]byte
+	CharStrings                    [][]byte
+	IsCID                          bool
+	FDs                            []FD
+	FDSelect                       []int // FD index per glyph
 }
 
 type rd struct {
